@@ -21,12 +21,24 @@ PANIC_FNS = ('panicking::panic', 'panic_fmt', 'panic_display', 'begin_panic', 'a
              'panic_nounwind', 'panic_cold', 'panic_bounds_check', 'unwrap_failed', 'expect_failed')
 
 
-def load_allow():
+def load_allow(prog=None):
+    """allow-list entries: {"key": "<function path>|<kind>|<ordinal>", "reason": ..}; instead of a literal function path an
+    entry may carry "role": {"module": "m::", "calls": "str::find"} = the unique function of module m calling that std function
+    (private helpers are identified by what they do, so renaming them does not invalidate the entry)."""
     p = os.path.join(VERIF, 'spec', 'allow.json')
     if not os.path.exists(p):
         return {}
+    out = {}
     with open(p) as fh:
-        return {e['key']: e for e in json.load(fh)}
+        for e in json.load(fh):
+            if 'role' in e and prog is not None:
+                c = [b.path for b in prog.bodies.values() if b.path.startswith(e['role']['module']) and b.kind != 'Closure' and
+                     any(cname(callee_name(t)) == e['role']['calls'] for _, t in b.calls())]
+                if len(c) == 1:
+                    out['%s|%s' % (c[0], e['site'])] = e
+            else:
+                out[e['key']] = e
+    return out
 
 
 def array_len_of_type(ty):
@@ -78,6 +90,17 @@ class Bounds:
                     n = self.len_of(base)
                     if n is not None:
                         return (0, max(0, n[1] - 1))
+        if t[0] == 'fld' and t[2] == '0' and self.b.kind == 'Closure' and isinstance(strip(t[1]), tuple) and strip(t[1])[0] == 'param' and strip(t[1])[1] == 2:
+            # first component of the (index, item) pair a closure receives from enumerate()
+            n = closure_enumerate_len(self.b)
+            if n is not None:
+                return (0, n - 1)
+        if t[0] == 'fld' and self.b.kind == 'Closure' and util.is_param(t[1], 1):
+            # captured variable: evaluate it where the closure is created
+            cap = closure_capture(self.b, t[2])
+            if cap is not None:
+                pb, term = cap
+                return Bounds(pb).rng(term, depth + 1)
         if t[0] == 'bin' and t[1] in ('Add', 'Sub', 'Mul'):
             a, b = self.rng(t[2], depth + 1), self.rng(t[3], depth + 1)
             if a is None or b is None:
@@ -114,6 +137,64 @@ class Bounds:
             if n is not None:
                 return (n, n)
         return None
+
+
+def closure_capture(cb, name):
+    """(creating body, operand term) of the captured variable `name` of closure body cb"""
+    idx = None
+    for blk in cb.blocks:
+        for st in blk['stmts']:
+            for pl in _places(st['rv']):
+                if pl['local'] == 1:
+                    for e in pl['proj']:
+                        if e['k'] == 'field':
+                            if e['name'] == name:
+                                idx = e['i']
+                            break
+    if idx is None:
+        return None
+    for pb in cb.prog.bodies.values():
+        for i, j, st in pb.stmts():
+            rv = st['rv']
+            if rv['k'] == 'agg' and rv['kind'].get('closure') == cb.path and idx < len(rv['ops']):
+                t = pb.op_term(rv['ops'][idx], (i, j))
+                return pb, t
+    return None
+
+
+def closure_enumerate_len(cb):
+    """If closure cb is handed to an iterator consumer whose receiver is enumerate() over a sequence of known length, that length."""
+    for pb in cb.prog.bodies.values():
+        for bi, t in pb.calls():
+            for k, a in enumerate(t['args']):
+                if k == 0:
+                    continue
+                at = strip(pb.op_term(a, (bi, None)))
+                if isinstance(at, tuple) and at[0] == 'agg' and at[1] == 'closure:' + cb.path:
+                    base, ad = util.iter_chain(pb.op_term(t['args'][0], (bi, None)))
+                    if 'enumerate' in ad and not [x for x in ad if x in ('skip', 'chain', 'zip', 'step_by', 'filter', 'rev') and ad.index(x) < ad.index('enumerate')]:
+                        n = Bounds(pb).len_of(base)
+                        if n is not None:
+                            return n[1]
+    return None
+
+
+def _places(rv):
+    out = []
+    k = rv.get('k')
+    if k == 'use' and rv['op'].get('k') in ('copy', 'move'):
+        out.append(rv['op']['place'])
+    elif k == 'bin':
+        for o in (rv['a'], rv['b']):
+            if o.get('k') in ('copy', 'move'):
+                out.append(o['place'])
+    elif k in ('ref', 'discr'):
+        out.append(rv['place'])
+    elif k in ('un', 'cast'):
+        o = rv.get('a') or rv.get('op')
+        if o.get('k') in ('copy', 'move'):
+            out.append(o['place'])
+    return out
 
 
 def sites_of(body):
@@ -182,6 +263,15 @@ def discharge(prog, body, kind, bi, t, bounds):
                 return 'receiver is on its Some/Ok edge'
             if isinstance(g, tuple) and g[0] == 'call' and cname(g[1]) in ('Option::is_some', 'Result::is_ok') and strip(g[2]) == recv and k in (1, 'otherwise'):
                 return 'dominated by is_some()/is_ok()'
+        # x.as_ref().unwrap() on the edge where map_or(DEFAULT, ..) of the same option differs from DEFAULT
+        for g, k, sw in body.guard_terms(bi):
+            g = strip(g)
+            if isinstance(g, tuple) and g[0] == 'bin' and g[1] in ('Eq', 'Ne'):
+                w, c = strip(g[2]), strip(g[3])
+                differs = (g[1] == 'Eq' and k == 0) or (g[1] == 'Ne' and k in (1, 'otherwise'))
+                if differs and isinstance(w, tuple) and w[0] == 'call' and cname(w[1]) == 'Option::map_or' and strip(w[2]) == recv and \
+                        util.const_val(w[3]) is not None and util.const_val(w[3]) == util.const_val(c):
+                    return 'the option is Some whenever map_or(default, ..) of the same option differs from the default'
         # try_into().unwrap() of a Vec whose length was checked
         if isinstance(recv, tuple) and recv[0] == 'call' and cname(recv[1]) in ('TryInto::try_into', 'TryFrom::try_from'):
             src = strip(recv[2])
@@ -204,6 +294,14 @@ def discharge(prog, body, kind, bi, t, bounds):
                     return 'Regex::new of the literal %r (pattern parses)' % a[2]
                 except Exception:
                     return None
+        return None
+    if kind in ('call:slice::sort_by', 'call:slice::sort_unstable_by'):
+        cb, caps = util.closure_of_term(prog, body.op_term(t['args'][1], (bi, None)))
+        if cb is not None:
+            rv = [strip(x[0]) for x in cb.return_values()]
+            if len(rv) == 1 and isinstance(rv[0], tuple) and rv[0][0] == 'call' and cname(rv[0][1]) == 'Option::unwrap_or' and \
+                    isinstance(strip(rv[0][2]), tuple) and strip(rv[0][2])[0] == 'call' and cname(strip(rv[0][2])[1]) == 'PartialOrd::partial_cmp':
+                return 'comparator is partial_cmp(..).unwrap_or(Equal) on f64 costs (a total order on the finite costs established by R04.4); the comparator itself cannot panic'
         return None
     if kind in ('call:Index::index', 'call:IndexMut::index_mut'):
         full = callee_name(t)
@@ -267,7 +365,7 @@ def _shrinks(body, recv):
 def census(ctx, rule, entry_paths, follow_virtual=None, skip_bodies=()):
     """Run the census; emits ok/violation instances into ctx.  Returns (n_sites, n_discharged, n_allowed)."""
     prog = ctx.prog
-    allow = load_allow()
+    allow = load_allow(prog)
     reach = prog.reachable_bodies(entry_paths, follow_virtual)
     n = nd = na = 0
     used_allow = set()
